@@ -584,7 +584,7 @@ def kinds(tier):
     ]
 
 
-REGISTERED = False
+REGISTERED = True
 LEVEL_TEXT = ("The escape functions are decided exhaustively for all strings up "
               "to length 6/7 over the escape alphabet; every other mapping is "
               "sampled from grammars that over-represent the characters each "
